@@ -193,7 +193,7 @@ impl World {
             for op in &self.ops {
                 if op.completions > 0 { continue; }
                 if let (Some(t), Some((c, at))) = (op.ack_timeout_ms, op.emitted_at_on_conn) {
-                    if c == ci && now >= at + t && at < now { missed = Some((op.tag, at, t)); break; }
+                    if c == ci && now >= at.saturating_add(t) && at < now { missed = Some((op.tag, at, t)); break; }
                 }
             }
             if let Some((tag, at, t)) = missed {
